@@ -24,6 +24,46 @@ import enum as _enum
 CLASSES = {c.__name__: c for c in M.message_type_to_class.values()}
 CLASSES['MeasurementDetails'] = MeasurementDetails
 
+# Synthetic payload classes that rely on the default conversion (MessagePayload.to_numpy): one scalar field only, one
+# vector field only, a timestamp plus one vector.  Defining a MessagePayload subclass registers it for its message type,
+# so the registry entry is restored afterwards.
+from fusion_engine_client.messages.defs import MessagePayload as _MP
+_saved = _MP.message_type_to_class.get(MessageType.INVALID)
+
+
+class SynOneScalar(_MP):
+    MESSAGE_TYPE = MessageType.INVALID
+    MESSAGE_VERSION = 0
+
+    def __init__(self):
+        self.value = np.nan
+
+
+class SynOneVector(_MP):
+    MESSAGE_TYPE = MessageType.INVALID
+    MESSAGE_VERSION = 0
+
+    def __init__(self):
+        self.vec = np.full((3,), np.nan)
+
+
+class SynTimeVector(_MP):
+    MESSAGE_TYPE = MessageType.INVALID
+    MESSAGE_VERSION = 0
+
+    def __init__(self):
+        self.p1_time = Timestamp()
+        self.vec4 = np.full((4,), np.nan)
+        self.count = 0
+
+
+if _saved is None:
+    _MP.message_type_to_class.pop(MessageType.INVALID, None)
+else:
+    _MP.message_type_to_class[MessageType.INVALID] = _saved
+SYNTHETIC = {'SynOneScalar': SynOneScalar, 'SynOneVector': SynOneVector, 'SynTimeVector': SynTimeVector}
+CLASSES.update(SYNTHETIC)
+
 
 def is_enum(v):
     return isinstance(v, _enum.Enum) or (hasattr(type(v), '__members__') and hasattr(v, 'value') and hasattr(v, 'name'))
@@ -93,6 +133,13 @@ def build(cls, n, nan, variant, wire=False):
                         nv = members[(k + 1) % len(members)]
                     if name == 'measurement_time_source' and nv.name == 'P1_TIME':
                         nv = members[(k + 1) % len(members)]
+                elif variant == 3:
+                    # time source INVALID (value 0) whatever the P1 time is: nothing may be substituted
+                    if name == 'measurement_time_source':
+                        inv = [x for x in members if int(x) == 0]
+                        nv = inv[0] if inv else nv
+                    if name == 'calibration_stage' and nv.name == 'UNKNOWN':
+                        nv = members[(k + 1) % len(members)]
                 elif variant == 2:
                     if name == 'calibration_stage':
                         unk = [x for x in members if x.name == 'UNKNOWN']
@@ -118,6 +165,10 @@ def build(cls, n, nan, variant, wire=False):
             set_path(m, path, nv)
         msgs.append(m)
     return msgs
+
+
+def leaf_snapshot(m):
+    return [(p, flat_repr(v) if isinstance(v, np.ndarray) else (repr(float(v)) if isinstance(v, Timestamp) else repr(v))) for p, v in leaves(m)]
 
 
 def numeric(v):
@@ -218,9 +269,35 @@ def run(req):
         except Exception:
             pass
     issues, stats = [], {'same_named': 0, 'time_dependent': 0, 'ntd': 0, 'table_rows': 0, 'skipped_non_numeric': 0}
+    before = [leaf_snapshot(m) for m in msgs]
     out = cls.to_numpy(msgs)
     if not isinstance(out, dict):
         return {'issues': [{'kind': 'not-a-dict', 'key': ''}], 'arrays': {}, 'stats': stats}
+    out_snap = {k: (list(v.shape), flat_repr(v)) for k, v in out.items() if isinstance(v, np.ndarray)}
+    # a second conversion and a conversion of the same messages given as a tuple give the same arrays, and do not disturb
+    # the arrays handed out before
+    for form, seq in (('second-call', msgs), ('tuple', tuple(msgs))):
+        try:
+            o2 = cls.to_numpy(seq)
+        except Exception as e:
+            issues.append({'kind': 'conversion-raises', 'key': '*', 'form': form, 'exception': type(e).__name__, 'n': n}); continue
+        for k, (sh, fl) in out_snap.items():
+            v2 = o2.get(k)
+            if not (isinstance(v2, np.ndarray) and list(v2.shape) == sh and flat_repr(v2) == fl):
+                issues.append({'kind': 'conversion-not-repeatable', 'key': k, 'form': form, 'n': n}); break
+    if any(list(out[k].shape) != sh or flat_repr(out[k]) != fl for k, (sh, fl) in out_snap.items()):
+        issues.append({'kind': 'earlier-result-changed-by-later-call', 'key': '*', 'n': n})
+    if [leaf_snapshot(m) for m in msgs] != before:
+        issues.append({'kind': 'conversion-modifies-messages', 'key': '*', 'n': n})
+    # advisory: outputs that share memory with a message's own array
+    aliased = []
+    for k, v in out.items():
+        if isinstance(v, np.ndarray):
+            for m in msgs[:3]:
+                for path, fv in leaves(m):
+                    if isinstance(fv, np.ndarray) and fv.size and v.size and np.shares_memory(v, fv):
+                        aliased.append(k)
+    stats['outputs_sharing_memory_with_a_message_array'] = len(set(aliased))
     if twins is not None:
         # conversion must depend on the field values only, not on the container types a decoded message happens to hold
         try:
@@ -359,11 +436,31 @@ def run(req):
 
     # ---- MessageData.to_numpy(remove_nan_times=True) ------------------------------------------------------
     arrays = {}
-    if cls is not MeasurementDetails:
+    if cls is not MeasurementDetails and cls.__name__ not in SYNTHETIC:
         md = MessageData(cls.MESSAGE_TYPE, None)
         for i, m in enumerate(all_msgs):
             md.add_message(m, 1000 + i, i)
         md.to_numpy(remove_nan_times=True)
+        # other ways to the same arrays: DataLoader.to_numpy() on a dict (which swallows ValueError), and the keep_* options
+        from fusion_engine_client.analysis.data_loader import DataLoader
+        md2 = MessageData(cls.MESSAGE_TYPE, None)
+        md3 = MessageData(cls.MESSAGE_TYPE, None)
+        for i, m in enumerate(all_msgs):
+            md2.add_message(m, 1000 + i, i); md3.add_message(m, 1000 + i, i)
+        try:
+            DataLoader.to_numpy({cls.MESSAGE_TYPE: md2}, remove_nan_times=True)
+            md3.to_numpy(remove_nan_times=True, keep_messages=False, keep_message_bytes=False, keep_message_index=False)
+            for k, v in vars(md).items():
+                if isinstance(v, np.ndarray) and k not in ('message_bytes', 'message_index'):
+                    for name, other in (('DataLoader.to_numpy', md2), ('keep_*=False', md3)):
+                        w = getattr(other, k, None)
+                        if not (isinstance(w, np.ndarray) and w.shape == v.shape and flat_repr(w) == flat_repr(v)):
+                            issues.append({'kind': 'access-paths-disagree', 'key': k, 'path': name, 'n': n})
+            stats['access_paths'] = 3
+        except Exception as e:
+            issues.append({'kind': 'conversion-raises', 'key': '*', 'form': 'DataLoader.to_numpy / keep options', 'exception': type(e).__name__, 'n': n})
+        if [leaf_snapshot(m) for m in all_msgs] != before:
+            issues.append({'kind': 'conversion-modifies-messages', 'key': '*', 'n': n, 'where': 'MessageData.to_numpy'})
         raw = dict(out)
         raw['message_bytes'] = np.array([1000 + i for i in range(n)], dtype=np.uint64)
         raw['message_index'] = np.array(list(range(n)), dtype=int)
@@ -467,7 +564,7 @@ def listing():
         res.append({'name': name, 'module': c.__module__.split('.')[-1],
                     'own': 'to_numpy' in c.__dict__, 'resolved': c.to_numpy.__func__.__qualname__,
                     'fields': sorted(vars(d)), 'has_details': is_obj(vars(d).get('details')),
-                    'has_p1': any(p[-1] == 'p1_time' for p, _ in leaves(d)),
+                    'has_p1': any(p[-1] == 'p1_time' for p, _ in leaves(d)), 'synthetic': name in SYNTHETIC,
                     'has_enum_preprocessing': any(p[-1] in ('calibration_stage', 'measurement_time_source') for p, _ in leaves(d))})
     return {'classes': res}
 
